@@ -243,6 +243,17 @@ def make_dir(rng, ctx, root, same_stem=False, carry=False, probe=None, full=Fals
                 break
         files.append(('carry_a.dlis', 'valid-RP66V1', a))
         files.append(('carry_b.dlis', 'valid-RP66V1', b))
+        # the same for LIS: a file whose only log pass lacks requested channels (CH01, CH02), then a file that has them
+        while True:
+            la, pa, _ = c11.build_lis(rng, ctx)
+            if len(pa) == 1 and 'CH00' in pa[0]['names'] and 'CH01' not in pa[0]['names']:
+                break
+        while True:
+            lb, pb, _ = c11.build_lis(rng, ctx)
+            if all('CH00' in p['names'] and 'CH01' in p['names'] and 'CH02' in p['names'] for p in pb):
+                break
+        files.append(('carry_c.lis', 'valid-LIS', la))
+        files.append(('carry_d.lis', 'valid-LIS', lb))
     if same_stem:
         a = c11.build_dlis(rng)[0]
         b = c11.build_dlis(rng)[0]
@@ -441,7 +452,7 @@ def run(ctx):
             elif di == 1:
                 sel = Slice.Slice(20, None, None)
             mostly_empty = sel == Slice.Slice(20, None, None)     # selects nothing in most passes: conversions fail (allowed, see C11)
-            req = set() if (rng.random() < 0.5 and not carry) else {'C001', 'C101', 'C102', 'CH00', 'CH01', 'C00 '}
+            req = set() if (rng.random() < 0.5 and not carry) else {'C001', 'C101', 'C102', 'CH00', 'CH01', 'CH02', 'C00 '}
             args = ('first', sel, req, 16, '.3f')
             din = os.path.join(root, 'in')
             # isolated conversions (twice)
